@@ -105,7 +105,7 @@ func mentionsAny(msg string, root string, cfg treeCfg, mentions []string) bool {
 			return true
 		}
 		// a reference written with the ~ shortcut is reported under its resolved name's last segment
-		if i := strings.LastIndex(m, "/"); i >= 0 && strings.Contains(msg, "'"+m[i+1:]+"'") {
+		if i := strings.LastIndex(m, "/"); i >= 0 && strings.Contains(msg, m[i+1:]) {
 			return true
 		}
 	}
